@@ -33,7 +33,9 @@ RULE = ('helpers: every length n in 0..6 x value patterns (distinct floats, NaN/
         'pandas-mixin models and linkers; (6) histories: eval -> whole-series rebinding (list / tuple / range by attribute, '
         'item, replace_values), in-place changes, values setter, add_variable, copy(), reindex() -> eval again, each eval '
         'compared with the reference evaluation on the CURRENT series (and the version of the array eval is bound to with '
-        'the Lean history model). distinct = distinct (function, array, shift, fill) or distinct '
+        'the Lean history model); (7) layout variants of every kind of expression that Python\'s eval accepts and that cannot '
+        'change the value: leading blanks / tabs, trailing blanks / newline, redundant parentheses, newlines and line '
+        'continuation inside parentheses, wide operators. distinct = distinct (function, array, shift, fill) or distinct '
         '(span type, length, expression); non-trivial = the call returns a value')
 TRUSTED = ['NumPy float64 subtraction is IEEE-754 (mirrored by Lean Float in the driver instance); np.log is an input '
            'to the dlog model (the harness sends NumPy\'s own log values)',
@@ -483,6 +485,35 @@ class ExprGen:
         return text, otext
 
 
+LAYOUTS = ['none', 'lead-space', 'lead-tab', 'lead-mixed', 'trail-space', 'trail-newline', 'parens', 'parens-newlines',
+           'wide-operators', 'continuation-in-parens', 'lead-and-trail']
+
+
+def apply_layout(text, layout):
+    """Layout variants that Python's own eval() accepts and that cannot change the value of an expression."""
+    if layout == 'lead-space':
+        return '  ' + text
+    if layout == 'lead-tab':
+        return '\t' + text
+    if layout == 'lead-mixed':
+        return ' \t ' + text
+    if layout == 'trail-space':
+        return text + '   '
+    if layout == 'trail-newline':
+        return text + '\n'
+    if layout == 'parens':
+        return '(' + text + ')'
+    if layout == 'parens-newlines':
+        return '(\n  ' + text + '\n)'
+    if layout == 'wide-operators':
+        return text.replace(' + ', '  +\t').replace(' * ', '\t*  ')
+    if layout == 'continuation-in-parens':
+        return '(' + text.replace(' + ', ' +\n    ').replace(' - ', '\n    - ') + ')'
+    if layout == 'lead-and-trail':
+        return '\t ' + text + ' \n'
+    return text
+
+
 def values_equal(a, b):
     a, b = np.asarray(a), np.asarray(b)
     if a.shape != b.shape:
@@ -591,8 +622,10 @@ def gen_eval_case(rng, kind=None, n=None):
     names = usable_names(objtype, rng.choice(EVAL_NAME_SETS))
     g = ExprGen(rng, kind, n, span, names)
     text, otext = g.build()
+    layout = rng.choice(LAYOUTS) if rng.random() < 0.5 else 'none'
+    text = apply_layout(text, layout)
     return {'kind': 'eval', 'span_kind': kind, 'n': n, 'expr': text, 'otext': otext, 'names': names,
-            'objtype': objtype,
+            'objtype': objtype, 'layout': layout,
             'features': sorted(g.features), 'period_texts': sorted(g.period_texts)}
 
 
@@ -625,8 +658,9 @@ def special_cases():
             continue
         for expr, otext, feats in SPECIAL_EXPRS:
             e = expr.format(l0=texts[0], l1=texts[1], l2=texts[2], l3=texts[3])
-            yield {'kind': 'eval', 'span_kind': kind, 'n': n, 'expr': e, 'otext': otext, 'features': feats,
-                   'period_texts': texts[:4]}
+            for layout in (LAYOUTS if kind in ('range', 'period_Q', 'np_int') else ['none']):
+                yield {'kind': 'eval', 'span_kind': kind, 'n': n, 'expr': apply_layout(e, layout), 'otext': otext,
+                       'features': feats, 'period_texts': texts[:4], 'layout': layout}
 
 
 def check_eval_cases(ctx, rep, cases):
@@ -639,6 +673,7 @@ def check_eval_cases(ctx, rep, cases):
         rep.dist[f'eval:{bc.span_family(case["span_kind"])}:{regime}'] += 1
         for f in case['features']:
             rep.dist['eval-feature:' + f] += 1
+        rep.dist['eval-layout:' + case.get('layout', 'none')] += 1
         rep.case(('eval', case['span_kind'], case['n'], case['expr']), nontrivial=(outcome[0] == 'ok'),
                  sample={'span': case['span_kind'], 'expr': case['expr'], 'means': case['otext']}
                  if rep.evaluations % 701 == 0 else None)
@@ -662,7 +697,7 @@ def check_errors(ctx, rep):
         texts = [t for t in bc.label_texts(kind, span) if t is not None]
         missing = ['zzz', '1066', '30000101']
         for m in missing:
-            for expr in (f'X[`{m}`]', f'X[`{m}`:]', f'Y + X[:`{m}`]'):
+            for expr in (f'X[`{m}`]', f'X[`{m}`:]', f'Y + X[:`{m}`]', f'  X[`{m}`]', f'(\nY + X[:`{m}`]\n)'):
                 case = {'kind': 'eval-missing', 'span_kind': kind, 'n': n, 'expr': expr, 'period_texts': texts + missing}
                 before, bbefore = state_of(c), builtins_state()
                 tag, got = run_eval(c, expr)
@@ -736,7 +771,7 @@ def undefined_cases():
         for u in near_names(names) + FAR_NAMES:
             if not u.isidentifier() or u in reserved or u in names:
                 continue
-            templates = ['{u}', '{u} + 1', 'lag({u})']
+            templates = ['{u}', '{u} + 1', 'lag({u})', ' {u} + 1', '\t{u}', '(\n{u}\n)', '{u} \n']
             if names:
                 templates.append(names[0] + ' * {u}')
             for t in templates:
@@ -775,7 +810,7 @@ def check_undefined(ctx, rep):
         except Exception:  # noqa: BLE001
             sugg = None
         rep.dist['eval:undefined:suggestions=' + ('?' if sugg is None else str(min(len(sugg), 2)) + ('+' if sugg and len(sugg) > 1 else ''))] += 1
-        if sugg is not None and case['expr'] == case['name']:
+        if sugg is not None and case['expr'].strip() == case['name']:
             reqs.append(line('evalname', {'helpers': sorted(F.builtins.keys()), 'vars': case['names'], 'locals': None,
                                           'name': case['name'], 'suggestions': sugg}))
             held.append((case, tag, got))
